@@ -8,7 +8,7 @@ from core import BaseProp, Verdict
 from proto import T
 
 RULE = ('random tables under random assignments of the exception flags (and, exhaustively, every assignment for tables of <= 4 '
-        'symbols) x texts with WITH in every position (valid, misplaced, chained, in parentheses), default and simple tokenizer; three tables in ten given as symbol-like user objects (wrapped by Licensing) instead of LicenseSymbols; roles judged by the flags of the table as given; '
+        'symbols) x texts with WITH in every position (valid, misplaced, chained, in parentheses), default and simple tokenizer; three tables in ten given as symbol-like user objects (wrapped by Licensing) instead of LicenseSymbols; roles judged by the flags of the table as given; half of the tables write their flags as a loader or user object may (empty string / None / 0 for no, a string / 1 for yes); '
         'Spec on the real code: strict accepted <=> non-strict accepted and every WITH has a non-exception on the left and an '
         'exception on the right and no exception stands alone; accepted => same result; rejected for roles => code 101/102 and the '
         'token is an offending license at its position; non-strict outcome does not depend on the flags. Correspondence: outcomes with '
@@ -57,7 +57,7 @@ class Prop(BaseProp):
         if rng.random() < 0.5:
             keys = [k for k, _, _ in table if not set(k.lower().split()) & {'and', 'or', 'with'}] + ['zq', 'foo']
             t = gen.gen_tree(rng, keys, depth=rng.randint(0, 2), maxar=3, with_p=0.5, flags=False)
-            return {'table': table, 'text': gen.tree_text(rng, t), 'simple': rng.random() < 0.2, 'mask': rng.randrange(16), 'records': rng.random() < 0.3}
+            return {'table': table, 'text': gen.tree_text(rng, t), 'simple': rng.random() < 0.2, 'mask': rng.randrange(16), 'records': rng.random() < 0.3, 'flagstyle': rng.choice([None, None, None, 'empty', 'none', 'int'])}
         n = rng.randint(1, 7)
         items = []
         for _ in range(n):
@@ -71,13 +71,20 @@ class Prop(BaseProp):
             else:
                 items.append(rng.choice('()'))
         text = ' '.join(items) if rng.random() < 0.7 else gen.blank_run(rng).join(items)
-        return {'table': table, 'text': text, 'simple': rng.random() < 0.3, 'mask': rng.randrange(16), 'records': rng.random() < 0.3}
+        return {'table': table, 'text': text, 'simple': rng.random() < 0.3, 'mask': rng.randrange(16), 'records': rng.random() < 0.3, 'flagstyle': rng.choice([None, None, None, 'empty', 'none', 'int'])}
 
     def eval_case(self, drv, case):
         table, text, simple = case['table'], case['text'], case['simple']
         if not impl.lower_is_charwise(text):
             return Verdict('skip', case)
-        lic = P.licensing(table, records=bool(case.get('records')))
+        style = case.get('flagstyle')
+        if style:
+            # the same table with its flags written as a loader or a user object may write them: '' / None / 0 for no, 'yes' / 1 for yes
+            no, yes = {'empty': ('', 'yes'), 'none': (None, 1), 'int': (0, 1)}[style]
+            rows = [(k, al, yes if ex else no) for k, al, ex in table]
+            lic = impl.le.Licensing(impl.table_records(rows) if case.get('records') else [impl.le.LicenseSymbol(k, aliases=tuple(al), is_exception=ex) for k, al, ex in rows])
+        else:
+            lic = P.licensing(table, records=bool(case.get('records')))
         lax = impl.parse_c(lic, text, strict=False, simple=simple)
         strict = impl.parse_c(lic, text, strict=True, simple=simple)
         il = impl.ltok_c(lic, text, strict=False, simple=simple)
